@@ -330,23 +330,24 @@ Qed.
 (** the reordering to the target order, from a collected manager with
     requests disabled *)
 Lemma b2m_reorder_link dvars s1 L :
-  Inv s1 → Counts s1 L → last_len s1 = None → tape s1 = [] → nozero s1 →
+  Inv s1 → Counts s1 L → last_len s1 = None → max_nodes s1 = None → tape s1 = [] → nozero s1 →
   (∀ u, u ∈ roots s1 → held L u) → dvars_wf dvars s1 →
   ∃ s2, reorder (Some (list_to_map (b2m_b2s dvars))) s1 = (Ok tt, s2) ∧
     Inv s2 ∧ Counts s2 L ∧ last_len s2 = None ∧ tape s2 = [] ∧ nozero s2 ∧
     keepsH L s1 s2 ∧ vars s2 = list_to_map (b2m_b2s dvars) ∧
     dvars_wf dvars s2 ∧ b2m_wf dvars s2.
 Proof.
-  intros HI1 HC1 Hoff1 Ht1 Hnz1 Hroots1 Hdw1.
+  intros HI1 HC1 Hoff1 Hmx1 Ht1 Hnz1 Hroots1 Hdw1.
   set (order := list_to_map (b2m_b2s dvars) : gmap nat nat).
   pose proof (target_nodup dvars s1 Hdw1) as Hnd.
   assert (Hord : ∀ b k, order !! b = Some k ↔ b2m_target dvars !! k = Some b).
   { intros b k. by apply imap_index_lookup. }
   destruct (reorder (Some order) s1) as [r s2] eqn:Er.
   destruct (nt_reorder (Some order) s1 r s2 Ht1 Er) as [Ht2 Hne].
+  destruct (nft_reorder (Some order) s1 r s2 Hmx1 Er) as [_ Hnr].
   pose proof Er as Er0. cbn [reorder] in Er.
-  destruct (sort_to_order_correct order s1 L r s2 ltac:(by split_and!)) as [?|(->&HStp&Ev2&_)];
-    [| | | |exact Er|done|].
+  destruct (sort_to_order_correct order s1 L r s2 ltac:(by split_and!))
+    as [?|[?|(->&HStp&Ev2&_)]]; [| | | |exact Er|done|done|].
   - apply stdpp.sets.set_eq. intros b. unfold order. rewrite dom_list_to_map_L, elem_of_list_to_set.
     rewrite b2s_fst, (target_elem dvars s1 Hdw1), (dw_decl _ _ Hdw1), elem_of_dom. done.
   - intros v v' l Hv Hv'. apply Hord in Hv, Hv'. congruence.
@@ -381,7 +382,7 @@ Proof.
 Qed.
 
 Theorem b2m_prefix_link_dyn dvars s L :
-  Inv s → Counts s L → tape s = [] →
+  Inv s → Counts s L → max_nodes s = None → tape s = [] →
   (∀ u, u ∈ roots s → held L u) → dvars_wf dvars s →
   ∃ s1 s2, collect_garbage None s = (Ok tt, s1) ∧
     reorder_pub (Some (list_to_map (b2m_b2s dvars))) s1 = (Ok tt, s2) ∧
@@ -389,7 +390,7 @@ Theorem b2m_prefix_link_dyn dvars s L :
     keepsH L s s2 ∧ vars s2 = list_to_map (b2m_b2s dvars) ∧
     dvars_wf dvars s2 ∧ b2m_wf dvars s2.
 Proof.
-  intros HI HC Ht Hroots Hdw.
+  intros HI HC Hmx Ht Hroots Hdw.
   destruct (collect_garbage None s) as [rg s1] eqn:Eg.
   pose proof (gc_nozero s L rg s1 HI HC Eg) as Hnz1.
   destruct (nt_collect_garbage None s rg s1 Ht Eg) as [Ht1 _].
@@ -404,6 +405,7 @@ Proof.
     split_and!; try done. intros ρ. unfold denv. by rewrite El1, HD. }
   assert (Hdw1 : dvars_wf dvars s1) by (apply (dvars_wf_vars dvars s); [by rewrite Ev1|done]).
   assert (Ell1 : last_len s1 = last_len s) by (by destruct Hfr1 as (E&_)).
+  assert (Hmx1 : max_nodes s1 = None) by (by rewrite (frame_max_nodes _ _ Hfr1)).
   assert (Hroots1 : ∀ u, u ∈ roots s1 → held L u).
   { destruct Hfr1 as (_&_&E&_). rewrite E. done. }
   destruct (b2m_reorder_link dvars (setll None s1) L)
@@ -429,7 +431,7 @@ Qed.
 (** ** The full theorem, for any threshold: dynamic reordering enabled or
     disabled on the BDD manager; the threshold is unchanged *)
 Theorem bdd_to_mdd_correct_dyn dvars order s L r s' :
-  Inv s → Counts s L → tape s = [] →
+  Inv s → Counts s L → max_nodes s = None → tape s = [] →
   (∀ u, u ∈ roots s → held L u) → 0 < L 1%positive → dvars_wf dvars s →
   bdd_to_mdd dvars order s = (r, s') →
   ∃ s1 s2, collect_garbage None s = (Ok tt, s1) ∧
@@ -441,8 +443,8 @@ Theorem bdd_to_mdd_correct_dyn dvars order s L r s' :
         ∀ u, 0 < L u → ∃ x, (u, x) ∈ umap ∧ mvalid mdd x ∧
           ∀ I, minrange mdd I → MD mdd x I = denv s (Z.pos u) (bitval dvars I))).
 Proof.
-  intros HI HC Ht Hroots HL1 Hdw Hrun.
-  destruct (b2m_prefix_link_dyn dvars s L HI HC Ht Hroots Hdw)
+  intros HI HC Hmx Ht Hroots HL1 Hdw Hrun.
+  destruct (b2m_prefix_link_dyn dvars s L HI HC Hmx Ht Hroots Hdw)
     as (s1&s2&Eg&Er&HI2&HC2&Hll2&Ht2&Hnz2&HK2&Hv2&Hdw2&Hwf2).
   exists s1, s2. split; [done|]. split; [done|].
   rewrite bdd_to_mdd_unfold in Hrun. cbv zeta in Hrun.
@@ -478,7 +480,7 @@ Qed.
 (** with requests disabled the public [reorder] is the inner one: the
     theorem of [MddOps2] is the instance [last_len s = None] *)
 Corollary bdd_to_mdd_correct_of_dyn dvars order s L r s' :
-  Inv s → Counts s L → last_len s = None → tape s = [] →
+  Inv s → Counts s L → last_len s = None → max_nodes s = None → tape s = [] →
   (∀ u, u ∈ roots s → held L u) → 0 < L 1%positive → dvars_wf dvars s →
   bdd_to_mdd dvars order s = (r, s') →
   ∃ s1 s2, collect_garbage None s = (Ok tt, s1) ∧
@@ -490,8 +492,8 @@ Corollary bdd_to_mdd_correct_of_dyn dvars order s L r s' :
         ∀ u, 0 < L u → ∃ x, (u, x) ∈ umap ∧ mvalid mdd x ∧
           ∀ I, minrange mdd I → MD mdd x I = denv s (Z.pos u) (bitval dvars I))).
 Proof.
-  intros HI HC Hoff Ht Hroots HL1 Hdw Hrun.
-  destruct (bdd_to_mdd_correct_dyn dvars order s L r s' HI HC Ht Hroots HL1 Hdw Hrun)
+  intros HI HC Hoff Hmx Ht Hroots HL1 Hdw Hrun.
+  destruct (bdd_to_mdd_correct_dyn dvars order s L r s' HI HC Hmx Ht Hroots HL1 Hdw Hrun)
     as (s1&s2&Eg&Er&->&HI2&HC2&Hll&Ht2&HK&Hres).
   exists s1, s2. split; [done|].
   assert (Hoff1 : last_len s1 = None).
